@@ -17,6 +17,8 @@ def compile_spec(s):
     """-> source text of the pfst pattern"""
     if 'backref' in s:
         return f'MTAG({s["backref"]!r})'
+    if s.get('any'):
+        return '...'
     if 'q' in s:
         name = {'star': 'MQSTAR', 'plus': 'MQPLUS', 'opt': 'MQOPT'}[s['q']] + ('' if s.get('greedy', True) else '.NG')
         sub = s['sub']
@@ -91,6 +93,10 @@ def _match_list(items, i, tgt, j, env):
                 e[it['tag']] = ('q', caps)
             yield from _match_list(items, i + 1, tgt, jj, e)
         return
+    if j < len(tgt) and not isinstance(it, dict):            # a literal element (an identifier in a list of names)
+        if tgt[j] == it and type(tgt[j]) is type(it):
+            yield from _match_list(items, i + 1, tgt, j + 1, env)
+        return
     if j < len(tgt):
         e = mini(it, tgt[j], env)
         if e is not None:
@@ -100,6 +106,8 @@ def _match_list(items, i, tgt, j, env):
 def mini(s, node, env=None):
     """-> environment {tag: node | ('q', [nodes])} (latest binding of a name wins) or None"""
     env = {} if env is None else env
+    if s.get('any'):
+        return env
     if 'backref' in s:
         v = env.get(s['backref'])
         return env if v is not None and not isinstance(v, tuple) and _same(v, node) else None
@@ -189,6 +197,28 @@ SPECS += [
      {'t': 'E', 'in_': 'E'}),
     ('backref', {'cls': 'BinOp', 'fields': {'left': {**_N, 'tag': 'x'}, 'right': {'backref': 'x'}}, 'tag': 'x'}, {'x': 'E'}),
 ]          # (ctx=None constraint is not expressible identically: dropped)
+WILD = {'any': True}
+# identifiers: the AST holds the NFKC-normalised name, the source may spell it with compatibility characters; patterns name
+# the normalised form, at every index of every identifier list
+SPECS += [
+    ('ident-nfkc-stmt', {'cls': 'Global', 'fields': {'names': ['a', 'fi']}}, {}),
+    ('ident-nfkc-stmt', {'cls': 'Global', 'fields': {'names': ['fi', 'a']}}, {}),
+    ('ident-nfkc-stmt', {'cls': 'Global', 'fields': {'names': [WILD, WILD, 'fi']}}, {}),
+    ('ident-nfkc-stmt', {'cls': 'Global', 'fields': {'names': [WILD, '\u03bc', WILD]}}, {}),
+    ('ident-nfkc-stmt', {'cls': 'Nonlocal', 'fields': {'names': [WILD, 'fi']}}, {}),
+    ('ident-nfkc-stmt', {'cls': 'Global', 'fields': {'names': ['fi']}}, {}),
+    ('ident-nfkc-stmt', {'cls': 'FunctionDef', 'fields': {'name': 'fi'}}, {}),
+    ('ident-nfkc-stmt', {'cls': 'ImportFrom', 'fields': {'names': [WILD, {'cls': 'alias', 'fields': {'name': 'fi'}}]}}, {}),
+    ('ident-nfkc', {'cls': 'Name', 'fields': {'id': 'fi'}}, {}),
+    ('ident-nfkc', {'cls': 'Attribute', 'fields': {'attr': 'fi'}, 'tag': 'w'}, {'w': 'E'}),
+    ('ident-nfkc', {'cls': 'Call', 'fields': {'keywords': [WILD, {'cls': 'keyword', 'fields': {'arg': 'fi'}}]}, 'tag': 'c'}, {'c': 'E'}),
+    ('ident-nfkc', {'cls': 'Call', 'fields': {'args': [{'cls': 'Name', 'fields': {'id': 'a'}}, {'cls': 'Name', 'fields': {'id': '\u03bc'}}]}}, {}),
+]
+NFKC_PROGRAMS = [
+    'def f():\n    global a, \ufb01\n    global \ufb01, a\n    global a, b, \ufb01\n    global \ufb01\n    global a, \u00b5, b\n    return a\n',
+    'def g():\n    def h():\n        nonlocal a, \ufb01\n        nonlocal \ufb01, a\n        use(\ufb01, a.\ufb01, k(x=1, \ufb01=2), k(\ufb01=1, x=2), k(a, \u00b5), k(\u00b5, a))\n',
+    'from m import a, \ufb01\nfrom m import \ufb01, a\ndef \ufb01(): pass\ndef fi_(): pass\nuse(\ufb01)\n',
+]
 TEMPLATES = ['log({t})', 'w({t}, 0)', '[{t}, {t}]', '{t}.q', 'log(__FST_)', 'k[{t}]']
 SLICE_TEMPLATES = ['g({t})', '[{t}, 0]', 'w(0, {t}, {t2})', '({t2}, {t})', 'log(__FST_)']
 Q_PROGRAMS = [
@@ -210,6 +240,15 @@ def product_jobs():
     """every quantifier / back-reference spec on every program of its family, slot in a call and in a list (deterministic)"""
     out = []
     for shape, spec, tagkinds in SPECS:
+        if shape.startswith('ident-nfkc'):
+            stmt = shape.endswith('-stmt')
+            for src in NFKC_PROGRAMS:
+                for tmpl in (('done = 1', 'if 1:\n    __FST_') if stmt else ('seen', 'w(__FST_)')):
+                    for on in ('enter', 'leave'):
+                        st = {'nested': False, 'on': on, 'count': 0, 'loop': False, 'ctx': False}
+                        out.append({'src': src, 'shape': shape, 'cat': 'stmt' if stmt else 'expr', 'pat': compile_spec(spec),
+                                    'spec': spec, 'placement': 'spec', 'tmpl': tmpl, 'set': st})
+            continue
         if shape not in ('q-sublist', 'backref'):
             continue
         es = [t for t, k in tagkinds.items() if k == 'ES']
@@ -228,7 +267,7 @@ def jobs(rng, n):
     out = product_jobs()
     n += len(out)
     while len(out) < n:
-        shape, spec, tagkinds = rng.choice(SPECS)
+        shape, spec, tagkinds = rng.choice([x for x in SPECS if not x[0].startswith('ident-nfkc')])
         tags = [t for t in tagkinds] or ['']
         special = shape in ('q-sublist', 'backref')
         es = [t for t, k in tagkinds.items() if k == 'ES']
